@@ -87,10 +87,11 @@ class AdvancedHTMLParser(HTMLParser):
 
                 @return <dict>
         '''
-        state = self.__dict__
+        # Work on a copy: the live __dict__ must keep its "reset" hook or this object could no longer parse
+        state = self.__dict__.copy()
 
         # Python2 compat
-        del state['reset']
+        state.pop('reset', None)
 
         return state
 
